@@ -53,7 +53,7 @@ KF_KEY = "seek-from-end-sign"
 
 
 def plan(tier):
-    n = 300 if tier == "quick" else 12000
+    n = 2500 if tier == "quick" else 200000
     return [(c, n) for c in CLASSES]
 
 
